@@ -411,7 +411,7 @@ pub fn reply_render(buf: &[u8], user: &[Property<'_>], sel: u8) -> String {
         Some(publication) => out.push_str(&encode_publish(4096, publication.properties(user), None, false)),
     }
     out.push_str(" owned=");
-    fn owned<const T: usize, const C: usize>(out: &mut String, m: &InboundPublish<'_>) {
+    fn owned<const T: usize, const C: usize>(out: &mut String, m: &InboundPublish<'_>, user: &[Property<'_>]) {
         match m.reply_owned::<T, C>() {
             Ok(None) => out.push_str("none"),
             Err(_) => out.push_str("ERR"),
@@ -426,18 +426,20 @@ pub fn reply_render(buf: &[u8], user: &[Property<'_>], sel: u8) -> String {
                     }
                     None => out.push('-'),
                 }
+                out.push_str(" p=");
+                out.push_str(&encode_publish(4096, target.publication(&b"r"[..]).properties(user), None, false));
             }
         }
     }
     match sel {
-        0 => owned::<0, 0>(&mut out, &message),
-        1 => owned::<1, 1>(&mut out, &message),
-        2 => owned::<4, 4>(&mut out, &message),
-        3 => owned::<8, 2>(&mut out, &message),
-        4 => owned::<2, 8>(&mut out, &message),
-        5 => owned::<16, 16>(&mut out, &message),
-        6 => owned::<64, 64>(&mut out, &message),
-        _ => owned::<128, 128>(&mut out, &message),
+        0 => owned::<0, 0>(&mut out, &message, user),
+        1 => owned::<1, 1>(&mut out, &message, user),
+        2 => owned::<4, 4>(&mut out, &message, user),
+        3 => owned::<8, 2>(&mut out, &message, user),
+        4 => owned::<2, 8>(&mut out, &message, user),
+        5 => owned::<16, 16>(&mut out, &message, user),
+        6 => owned::<64, 64>(&mut out, &message, user),
+        _ => owned::<128, 128>(&mut out, &message, user),
     }
     out
 }
